@@ -142,19 +142,24 @@ VarGet(x) ==
   /\ Log(Rec("vget", x, 0, <<>>, None, FALSE), GetV(store, Key(Base(x))), var[x])
 
 Can == Len(hist) < MaxOps
+\* (the bound is tested before the arguments are enumerated)
+AnyDictSet == \E d \in Dicts, v \in Vals, via \in BOOLEAN : \E ks \in KeySeqs(DepthOf(d)) :
+                 (via => DepthOf(d) = 2) /\ DictSet(d, ks, v, via)
+AnyDictDelete == \E d \in Dicts, via \in BOOLEAN : \E ks \in KeySeqs(DepthOf(d)) :
+                    (via => DepthOf(d) = 2) /\ DictDelete(d, ks, via)
+AnyDictGet == \E d \in Dicts, via \in BOOLEAN : \E ks \in KeySeqs(DepthOf(d)) :
+                 (via => DepthOf(d) = 2) /\ DictGet(d, ks, via)
+AnyDictBadArity == \E d \in Dicts, op \in {"dset", "ddel", "dget", "getdb"} : \E n \in DepthOf(d) - 1 .. DepthOf(d) + 1 :
+                      \E ks \in KeySeqs(n) : (IF op = "getdb" THEN n >= DepthOf(d) ELSE n # DepthOf(d)) /\ DictBadArity(d, ks, op)
 Next == \/ Can /\ \E c \in Arrays, v \in Vals : ArrPut(c, v)
         \/ Can /\ \E c \in Arrays : ArrPop(c)
         \/ Can /\ \E c \in Arrays, i \in 0..MaxLen, v \in Vals : ArrSet(c, i, v)
         \/ Can /\ \E c \in Arrays, i \in 0..MaxLen : ArrGet(c, i)
         \/ Can /\ \E c \in Arrays : ArrSize(c)
-        \/ Can /\ \E d \in Dicts, v \in Vals, via \in BOOLEAN : \E ks \in KeySeqs(DepthOf(d)) :
-              (via => DepthOf(d) = 2) /\ DictSet(d, ks, v, via)
-        \/ Can /\ \E d \in Dicts, via \in BOOLEAN : \E ks \in KeySeqs(DepthOf(d)) :
-              (via => DepthOf(d) = 2) /\ DictDelete(d, ks, via)
-        \/ Can /\ \E d \in Dicts, via \in BOOLEAN : \E ks \in KeySeqs(DepthOf(d)) :
-              (via => DepthOf(d) = 2) /\ DictGet(d, ks, via)
-        \/ Can /\ \E d \in Dicts, op \in {"dset", "ddel", "dget", "getdb"} : \E n \in DepthOf(d) - 1 .. DepthOf(d) + 1 : \E ks \in KeySeqs(n) :
-              (IF op = "getdb" THEN n >= DepthOf(d) ELSE n # DepthOf(d)) /\ DictBadArity(d, ks, op)
+        \/ Can /\ AnyDictSet
+        \/ Can /\ AnyDictDelete
+        \/ Can /\ AnyDictGet
+        \/ Can /\ AnyDictBadArity
         \/ Can /\ \E x \in Vars, v \in Vals : VarSet(x, v)
         \/ Can /\ \E x \in Vars : VarDelete(x)
         \/ Can /\ \E x \in Vars : VarGet(x)
